@@ -167,9 +167,10 @@ Section P.
   Definition write_core (s : st) (d : bytes) : st :=
     let over := rwl s <? len d in
     let d1 := if over then take (rwl s) d else d in
-    let s1 := if over then emit CbStop (set_writing false (set_buf (drop (rwl s) d) s)) else s in
+    let s1 := if over then set_writing false (set_buf (drop (rwl s) d) s) else s in
     let s2 := fold_left send_data (chunks (length d1) rmp d1) s1 in
-    set_rwl (rwl s2 - len d1) s2.
+    let s3 := set_rwl (rwl s2 - len d1) s2 in
+    if over then emit CbStop s3 else s3.
 
   Lemma write_eq s d :
     write s d = match buf s with
@@ -179,8 +180,8 @@ Section P.
   Proof. reflexivity. Qed.
 
   Definition burst (s : st) (mkp : bytes -> ev) (d : bytes) : list ev :=
-    (if rwl s <? len d then [CbStop] else []) ++
-    (if lclosed s then [] else map mkp (chunks (length (take (rwl s) d)) rmp (take (rwl s) d))).
+    (if lclosed s then [] else map mkp (chunks (length (take (rwl s) d)) rmp (take (rwl s) d))) ++
+    (if rwl s <? len d then [CbStop] else []).
 
   Lemma write_core_spec s d : buf s = [] ->
     buf (write_core s d) = drop (rwl s) d /\ ext (write_core s d) = ext s /\
@@ -213,8 +214,9 @@ Section P.
     { destruct Hmk as [->|[t ->]]; [apply closes_PData|apply closes_PExt]. }
     assert (sent (map mkp cs) = len (take (rwl s) d)) as Hsent.
     { rewrite <- Hcat. destruct Hmk as [->|[t ->]]; [apply sent_PData|apply sent_PExt]. }
-    destruct (rwl s <? len d), (lclosed s); cbn [app]; repeat split; intros; try discriminate;
-      repeat (constructor; try exact I); auto; rewrite ?closes_app; cbn; auto.
+    destruct (rwl s <? len d), (lclosed s); cbn [app]; rewrite ?app_nil_r; repeat split; intros; try discriminate;
+      rewrite ?closes_app, ?sent_app, ?Hc, ?Hsent; cbn [closes filter is_close length sent sent_ev Nat.add]; try lia;
+      try (apply Forall_app; split); auto; repeat (constructor; try exact I).
   Qed.
 
   Lemma eff_write_core s d : buf s = [] -> eff s (write_core s d).
@@ -237,9 +239,10 @@ Section P.
   Definition wext_core (s : st) (t : N) (d : bytes) : st :=
     let over := rwl s <? len d in
     let d1 := if over then take (rwl s) d else d in
-    let s1 := if over then emit CbStop (set_writing false (set_ext [(t, drop (rwl s) d)] s)) else s in
+    let s1 := if over then set_writing false (set_ext [(t, drop (rwl s) d)] s) else s in
     let s2 := fold_left (send_ext t) (chunks (length d1) rmp d1) s1 in
-    set_rwl (rwl s2 - len d1) s2.
+    let s3 := set_rwl (rwl s2 - len d1) s2 in
+    if over then emit CbStop s3 else s3.
 
   Lemma write_ext_eq s t d :
     write_ext s t d = match ext s with
@@ -494,14 +497,14 @@ Section P.
     dbytes (burst s PData d) = take (rwl s) d /\ xbytes (burst s PData d) = [].
   Proof.
     intros Hl. unfold burst. rewrite Hl, dbytes_app, xbytes_app, dbytes_PData, xbytes_PData.
-    rewrite concat_chunks by (auto; lia). destruct (_ <? _); cbn; auto.
+    rewrite concat_chunks by (auto; lia). destruct (_ <? _); cbn; rewrite ?app_nil_r; auto.
   Qed.
 
   Lemma burst_ext s t d : lclosed s = false ->
     dbytes (burst s (PExt t) d) = [] /\ xbytes (burst s (PExt t) d) = map (pair t) (take (rwl s) d).
   Proof.
     intros Hl. unfold burst. rewrite Hl, dbytes_app, xbytes_app, dbytes_PExt, xbytes_PExt.
-    rewrite concat_chunks by (auto; lia). destruct (_ <? _); cbn; auto.
+    rewrite concat_chunks by (auto; lia). destruct (_ <? _); cbn; rewrite ?app_nil_r; auto.
   Qed.
 
   Lemma opn_write s d : lclosed s = false ->
